@@ -337,13 +337,22 @@ def token_block_balance(kinds):
     if flow != 0:
         return None
     depth = 0
+    flow = 0
     for i, t in enumerate(k):
-        if t in ("BSS", "BMS"):
+        if t in ("FSS", "FMS"):
+            flow += 1
+        elif t in ("FSE", "FME"):
+            flow -= 1
+        elif t in ("BSS", "BMS"):
             depth += 1
         elif t == "BE":
             depth -= 1
             if depth < 0:
                 return "BLOCK-END without block start at %d" % i
+        elif t in ("DS", "DE") and flow > 0:
+            # a document marker inside an open flow collection: the scanner cannot unwind the block collections around
+            # it; such an input scans but cannot parse, and nothing is claimed for it
+            return None
         elif t in ("DS", "DE") and depth != 0:
             return "document marker inside an open block collection at %d" % i
     if depth != 0:
